@@ -43,7 +43,7 @@ func runC03(r *R) {
 	r.Assume = []string{"crypto/md5", "net/http delivers Body bytes in order"}
 
 	// ---- R1 + R2
-	r.Rule("C03-R1", "getOrHead: a non-nil reader is HashCheckingReader{Reader: resp.Body, Hash: md5.New(), Check: locator[0:32]} of a 200 response, or the empty literal under the empty-block prefix test", 2)
+	r.Rule("C03-R1", "getOrHead: a non-nil reader is HashCheckingReader{Reader: resp.Body, Hash: md5.New(), Check: locator[0:32]} of a 200 response, or the empty literal under the empty-block prefix test", 1)
 	r.Rule("C03-R2", "getOrHead: success only if NOT(Content-Length≥0 ∧ hint≠Content-Length) and NOT(no hint ∧ no Content-Length)", 1)
 	if fn := r.NeedFn("C03-R1", "(*"+kcl+".KeepClient).getOrHead"); fn != nil {
 		loc := paramOf(fn, "locator")
@@ -127,7 +127,7 @@ func runC03(r *R) {
 					gA := GuardOrPass(fn, in, ret, nil, EqC("expectLength == resp.ContentLength", isExpect, cl), LtC("resp.ContentLength < 0", cl, ConstIntVP(0)),
 						// or expectLength was just taken from Content-Length
 						LtC("expectLength < 0 (then set from Content-Length)", isExpect, ConstIntVP(0)))
-					gB := GuardOrPass(fn, in, ret, nil, NotC(LtC("resp.ContentLength < 0", cl, ConstIntVP(0))), NotC(LtC("expectLength < 0", isExpect, ConstIntVP(0))))
+					gB := GuardOrPass(fn, in, ret, nil, GeC("resp.ContentLength < 0", cl, ConstIntVP(0)), GeC("expectLength < 0", isExpect, ConstIntVP(0)))
 					r.Check(gA && gB, "C03-R2", fn, "size agreement before success", ret.Pos(), "hint and Content-Length agree; at least one present", "a response whose Content-Length contradicts the size hint (or with neither) can be accepted (agree="+boolS(gA)+" present="+boolS(gB)+")")
 				}
 			}
@@ -160,7 +160,7 @@ func runC03(r *R) {
 	}
 
 	// ---- R3
-	r.Rule("C03-R3", "HashCheckingReader: Read yields BadChecksum instead of EOF on mismatch; WriteTo/Close return nil only when the digest equals Check; Close drains the rest through the hash first", 4)
+	r.Rule("C03-R3", "HashCheckingReader: Read yields BadChecksum instead of EOF on mismatch; WriteTo/Close return nil only when the digest equals Check; Close drains the rest through the hash first", 3)
 	if fn := r.NeedFn("C03-R3", "("+kcl+".HashCheckingReader).Read"); fn != nil {
 		// find the EOF test and the sum test
 		eofC := EqC("err == io.EOF", AnyV, GlobalVP("io.EOF"))
@@ -264,7 +264,7 @@ func runC03(r *R) {
 	}
 
 	// ---- R4 + R5
-	r.Rule("C03-R4", "BlockCache.Get: stored error joins Get's, ReadFull's and Close's; an entry with an error is refetched; ReadAt copies only under err==nil", 3)
+	r.Rule("C03-R4", "BlockCache.Get: stored error joins Get's, ReadFull's and Close's; an entry with an error is refetched; ReadAt copies only under err==nil", 2)
 	r.Rule("C03-R5", "cache buffer: make([]byte, len, cap) with distinct non-constant len/cap is guarded by len <= cap", 1)
 	r.Rule("C03-R7", "cached block buffers are immutable once published: each fetch fills a freshly allocated buffer; no code writes into cacheBlock.data", 1)
 	if outer := r.NeedFn("C03-R4", "(*"+kcl+".BlockCache).Get"); outer != nil {
@@ -429,7 +429,7 @@ func runC03(r *R) {
 	}
 
 	// ---- R6
-	r.Rule("C03-R6", "every consumer of KeepClient.Get's reader passes it on, reads to EOF with the error checked, or uses Close()'s error; KeepClient.ReadAt and collection segment reads go through the verified cache", 3)
+	r.Rule("C03-R6", "every consumer of KeepClient.Get's reader passes it on, reads to EOF with the error checked, or uses Close()'s error; KeepClient.ReadAt and collection segment reads go through the verified cache", 2)
 	for _, fn := range w.ModuleFuncs() {
 		if strings.HasSuffix(w.Fset.Position(fn.Pos()).Filename, "_test.go") {
 			continue
